@@ -4,6 +4,7 @@ from engine.prov import const_int
 from engine import cfg
 from .common import reachable_local_fns, norm_path
 
+EXTRA_CONFIGS = ('default', 'tokio1', 'serde1', 'serde-transport')   # feature configurations re-analysed in the thorough tier
 META = {
     'level': 'other',
     'technique': 'static provenance rules over MIR: index expression shape, atomic RMW, who-may-write, loop-shape (dominator) rules',
